@@ -18,6 +18,10 @@ def sig_tok(name):
 
 def line_tok(line):
     """real spy string -> model token"""
+    if charts.scribble_tok(line) is not None:
+        return "sc.%d" % charts.scribble_tok(line)
+    if not isinstance(line, str):
+        return "?%r" % (line,)
     if line == "START":
         return "st"
     m = re.match(r"^<- Queued:\((\d+)\) Deferred:\((\d+)\)$", line)
@@ -118,7 +122,9 @@ def run_real(c, eff, cap, caps, ops, clock="fine", live=True, twin_seed=None):
                 else:
                     if a >= 90 and hasattr(chart, "current_state"):
                         chart.current_state()      # a handler asking the chart for its state (no line, no effect)
-                    chart.scribble("SCRIBBLE%d" % a)
+                    scrib.append(a)
+                    chart.scribble(charts.scribble_value(a))
+        scrib = []
         fns = c.build(log, spied=True, counter=hsm._vp_count, effects=effects)
         out = []
         steps = []       # per op: (handler-call log, new trace records) for the oracles
@@ -131,6 +137,7 @@ def run_real(c, eff, cap, caps, ops, clock="fine", live=True, twin_seed=None):
             if twin is not None:
                 twin.poke()
             del log[:]
+            del scrib[:]
             hsm._vp_calls = 0
             ntrace = len(hsm.full.trace)
             try:
@@ -150,7 +157,7 @@ def run_real(c, eff, cap, caps, ops, clock="fine", live=True, twin_seed=None):
                 out.append("raise")
                 break
             out.append("rtc=" + ",".join(line_tok(x) for x in hsm.spy_rtc()))
-            steps.append({"op": (o, a), "calls": list(log), "rtc": hsm.spy_rtc()})
+            steps.append({"op": (o, a), "calls": list(log), "rtc": hsm.spy_rtc(), "scribbles": list(scrib)})
         final = {"full": ",".join(line_tok(x) for x in hsm.spy()),
                  "trace": ",".join(rec_tok(t) for t in hsm.full.trace),
                  "livespy": ",".join(line_tok(x) for x in live_spy),
@@ -256,6 +263,11 @@ def oracle(run, focus, c, ops, caps, final, steps, cj, clock):
             if len(toks) < caps[0]:          # nothing fell out of the ring
                 if got_calls != calls:
                     run.violate("C19/calls", "spy lines %s do not list the handler invocations %s" % (got_calls, calls), cj)
+                got_sc = [t for t in toks if t.startswith("sc.")]
+                want_sc = ["sc.%d" % x for x in st.get("scribbles", [])]
+                if got_sc != want_sc:
+                    run.violate("C19/scribbles", "the handlers of this step scribbled %s (in this order), the step log holds %s"
+                                % ([charts.scribble_value(x) for x in st.get("scribbles", [])], got_sc), cj)
                 # HOOK exactly after handled user-signal offers
                 for idx, t in enumerate(toks):
                     if t.startswith("h."):
